@@ -30,7 +30,7 @@ from ..runner import Part
 CMP = [("<", operator.lt), ("<=", operator.le), (">", operator.gt), (">=", operator.ge), ("==", operator.eq), ("!=", operator.ne)]
 ARITH = [("+", operator.add), ("-", operator.sub), ("*", operator.mul), ("/", operator.truediv), ("%", operator.mod)]
 
-FR = [(1, 2), (2, 4), (3, 4), (-3, 4), (3, -4), (-1, -3), (0, 5), (7, 1), (5, None), (0.5, 3), (2.25, 4), (1, 0.5), (-1.5, 0.25), (10, 3), (1, 64), (123, 1000)]
+FR = [(1, 2), (2, 4), (3, 4), (-3, 4), (3, -4), (-1, -3), (0, 5), (7, 1), (5, None), (0.5, 3), (2.25, 4), (1, 0.5), (-1.5, 0.25), (10, 3), (1, 64), (123, 1000), (0.3, None), (0.7, 3), (-1.1, 7), (12.34, -5)]
 NUMS = [0, 1, -2, 3, 0.5, -0.25, 2.5]
 
 
@@ -136,6 +136,8 @@ def _fraction_part(part):
                     if r != want:
                         part.violation("C18:Fraction:%s %s %r (number on the %s)" % (_fr_expr(ta), name, k, side), {"got": repr(r), "want": repr(want)},
                                        pre + ("r = %s %s %r\n" % (_fr_expr(ta), name, k) if side == "right" else "r = %r %s %s\n" % (k, name, _fr_expr(ta))) + "print(repr(r)); assert repr(r) == %r\n" % (repr(want[1]),))
+        for k in NUMS + [float("inf"), float("-inf")]:
+            qk = q_of(k) if k == k and abs(k) != float("inf") else k  # a rational compares with an infinity like any number
             for name, op in CMP:
                 for side in ("right", "left"):
                     part.count("evaluations")
@@ -239,6 +241,13 @@ def _from_float_task(task):
         part.add("outcomes", (float(fv.GetFraction()) == 0.0, x < 0))
         if float(fv.GetFraction()) != 0.0:
             part.count("nontrivial")
+        # the same short decimal as the numerator of a Fraction denotes exactly the decimal written
+        if "e" in repr(x) or len(repr(x).replace(".", "").replace("-", "").strip("0")) > 8:
+            return  # beyond the 8 significant decimals the property speaks of
+        part.count("evaluations")
+        r = _run(lambda: Fraction(x).x)
+        if r != ("ok", Q(repr(x))):
+            part.violation("C18:Fraction(%r) denotes another rational" % x, {"got": repr(r), "want": str(Q(repr(x)))}, "from barril.basic.fraction import Fraction\nf = Fraction(%r)\nprint(repr(f)); assert repr(f) == %r\n" % (x, repr(Q(repr(x)))))
 
     if kind == "contexts":
         # the caller's decimal context is process state the library must not depend on
@@ -426,7 +435,7 @@ def run(ctx):
     c = ctx.part.counters
     ctx.level = "exploration"
     ctx.rule = (
-        "complete products: (A) 16x16 Fraction pairs x 5 arithmetic + 6 comparison operators, 7 numbers on both sides, exponents -2..3, unary operations and setters, judged by fractions.Fraction; "
+        "complete products: (A) 20x20 Fraction pairs (incl. short-decimal float numerators) x 5 arithmetic + 6 comparison operators, 7 numbers (+-inf for the comparisons) on both sides, exponents -2..3, unary operations and setters, judged by fractions.Fraction; "
         "(B) 11 numbers x 7 numerators x denominators 1..64 FractionValues: float, copy, str->CreateFromString (2 modes), 4 order operators over all ordered pairs of them (quick: of every third); "
         "(C) CreateFromFloat on every +-n/10^k (n <= %s) and every +-(i + p/q), q <= %s terminating, <= 8 significant digits; "
         "(D) every ordered unit pair of every quantity type x %d fraction values: FractionScalar.GetValue and db.Convert(FractionValue) vs Scalar(float(value)), 4 order operators x 2 probes x both operand orders; "
